@@ -29,7 +29,7 @@ import (
 )
 
 var (
-	flagProp = flag.String("prop", "C08x", "C08x|C09x|C10x")
+	flagProp = flag.String("prop", "C08x", "C04x|C06x|C08x|C09x|C10x")
 	flagSeed = flag.Int64("seed", 1, "PRNG seed")
 	flagTier = flag.String("tier", "quick", "quick|thorough")
 	flagOut  = flag.String("out", ".", "output directory")
@@ -265,8 +265,167 @@ func runC10x(r *emit.Rand) {
 		}
 		c.Close()
 	}
+	// an HTTP/1.0 keep-alive client inside a tunnel asking for a resource of unknown length, then a second request
+	for i := 0; i < 6; i++ {
+		c, _, err := env.DialTunnel(env.Origin.Addr, "127.0.0.1", 8*time.Second)
+		if err != nil {
+			panic(err)
+		}
+		p1 := fmt.Sprintf("/h10-%d/chunked1", i)
+		p2 := fmt.Sprintf("/h10-%d/a2", i)
+		c.Send([]byte("GET "+p1+" HTTP/1.0\r\nHost: "+env.Origin.Addr+"\r\nConnection: keep-alive\r\n\r\n"), 5*time.Second)
+		r1, err1 := c.Read("GET", 4*time.Second)
+		total++
+		dist["http10-keepalive"]++
+		det := map[string]any{"first": "GET " + p1 + " HTTP/1.0 keep-alive (unknown-length answer)", "second": "GET " + p2 + " HTTP/1.1"}
+		if err1 != nil || r1.BodyErr != "" || !strings.HasPrefix(string(r1.Body), "target="+p1+";") || strings.Contains(string(r1.Body), "HTTP/1.") {
+			if r1 != nil {
+				det["first_body"] = trunc(string(r1.Body))
+				det["first_framing"] = r1.Framing
+			}
+			fail("http10-keepalive", det, "the answer to an HTTP/1.0 keep-alive request on a tunnel has no usable framing (body never ends or swallows the next response)")
+			c.Close()
+			continue
+		}
+		if !r1.Close && r1.Framing != "close" {
+			c.Send(env.TunnelRequest("GET", p2, nil, nil), 5*time.Second)
+			r2, err2 := c.Read("GET", 4*time.Second)
+			if err2 != nil || !strings.HasPrefix(string(r2.Body), "target="+p2+";") {
+				fail("http10-keepalive", det, "the exchange after an HTTP/1.0 keep-alive request on the same tunnel did not get its own answer")
+			}
+		}
+		c.Close()
+	}
 	env.Close()
 	os.RemoveAll(dir)
+}
+
+// C04x: a Range request answered 416 is retried without Range (retry_on_range_416); the retried 200 is
+// marked not storable by the origin. Whatever the first answer's headers were, a later plain GET of the same
+// URL must reach the origin again (the marked response is never reused).
+func runC04x(r *emit.Rand) {
+	marks := []string{"Cache-Control: private", "Cache-Control: no-store", "Cache-Control: max-age=0", "Cache-Control: no-cache", "Expires: Thu, 01 Jan 1970 00:00:00 GMT", "Cache-Control: No-Store, max-age=60"}
+	n := 0
+	for _, backend := range []string{"memory", "file"} {
+		for _, mark := range marks {
+			for _, firstCC := range []string{"", "Cache-Control: max-age=600"} {
+				n++
+				dir := filepath.Join(*flagOut, fmt.Sprintf("env4-%d", n))
+				env, err := e2elib.Start(e2elib.Options{Backend: backend, Dir: dir, Tune: func(cfg *config.Config) {
+					cfg.Proxy.RetryOnRange416.Overwrite(true)
+				}})
+				if err != nil {
+					panic(err)
+				}
+				env.Origin.SetHandler(func(req e2elib.OriginRequest, k int) e2elib.Answer {
+					if req.Header.Get("Range") != "" {
+						lines := []string{"Content-Range: bytes */47"}
+						if firstCC != "" {
+							lines = append(lines, firstCC)
+						}
+						return answer("first-416", 416, lines...)
+					}
+					return answer(fmt.Sprintf("full-%d", k), 200, mark)
+				})
+				path := fmt.Sprintf("/c04x-%d", n)
+				get := func(hs []string) (*e2elib.Response, error) {
+					return env.DoPlain(env.PlainRequest("GET", path, hs, nil), "GET", 6*time.Second)
+				}
+				get([]string{"Range: bytes=1000-2000"})
+				before := env.Origin.Count()
+				resp, err := get(nil)
+				total++
+				dist["416-retry-then-plain/"+backend]++
+				det := map[string]any{"backend": backend, "retried_answer_marked": mark, "416_carried": firstCC}
+				if err != nil {
+					fail("416-retry-then-plain", det, "no response: "+err.Error())
+				} else if env.Origin.Count() == before {
+					det["x_cache"], det["body_answer"] = resp.Header.Get("X-Cache"), bodyID(resp.Body)
+					fail("416-retry-then-plain", det, "a 200 the origin marked not storable was reused from the store for a later plain GET (no origin contact)")
+				}
+				env.Close()
+				os.RemoveAll(dir)
+			}
+		}
+	}
+}
+
+// C06x: the proxy holds version 1 of a resource, the origin has moved to version 2; a client that already
+// has version 2 sends a Range request with If-None-Match "v2" / If-Modified-Since. The client's validators
+// must not reach the origin in place of the stored ones, and the old entry must not be renewed by the
+// origin's answer to them.
+func runC06x(r *emit.Rand) {
+	n := 0
+	for _, backend := range []string{"memory", "file"} {
+		for _, tlsOn := range []bool{false, true} {
+			for _, cond := range []string{"If-None-Match: \"v2\"", "If-Modified-Since: Tue, 03 Jan 2006 15:04:05 GMT", "If-None-Match: W/\"v2\""} {
+				for _, stale := range []bool{false, true} {
+					n++
+					dir := filepath.Join(*flagOut, fmt.Sprintf("env6-%d", n))
+					env, err := e2elib.Start(e2elib.Options{Backend: backend, Dir: dir, TLS: tlsOn})
+					if err != nil {
+						panic(err)
+					}
+					ver := 1
+					env.Origin.SetHandler(func(req e2elib.OriginRequest, k int) e2elib.Answer {
+						etag := fmt.Sprintf("\"v%d\"", ver)
+						lm := "Mon, 02 Jan 2006 15:04:05 GMT"
+						if ver == 2 {
+							lm = "Tue, 03 Jan 2006 15:04:05 GMT"
+						}
+						inm := strings.TrimPrefix(req.Header.Get("If-None-Match"), "W/")
+						if inm == etag || (inm == "" && req.Header.Get("If-Modified-Since") == lm) {
+							return e2elib.NewAnswer(304, nil, "ETag: "+etag, "X-Answer-Id: nm")
+						}
+						return answer(fmt.Sprintf("v%d", ver), 200, "Cache-Control: max-age=60", "ETag: "+etag, "Last-Modified: "+lm)
+					})
+					path := fmt.Sprintf("/c06x-%d", n)
+					do := func(hs []string) (*e2elib.Response, error) {
+						if tlsOn {
+							c, _, err := env.DialTunnel(env.Origin.Addr, "127.0.0.1", 8*time.Second)
+							if err != nil {
+								return nil, err
+							}
+							defer c.Close()
+							c.Send(env.TunnelRequest("GET", path, hs, nil), 5*time.Second)
+							return c.Read("GET", 8*time.Second)
+						}
+						return env.DoPlain(env.PlainRequest("GET", path, hs, nil), "GET", 8*time.Second)
+					}
+					do(nil) // version 1 stored
+					ver = 2
+					if stale {
+						env.Proxy.VerifCache().VerifAge(2 * time.Hour)
+					}
+					before := env.Origin.Count()
+					resp, err := do([]string{"Range: bytes=0-9", cond})
+					total++
+					dist["client-validators-on-range"]++
+					det := map[string]any{"backend": backend, "tls": tlsOn, "client_conditional": cond, "entry_stale": stale}
+					if err == nil {
+						det["range_answer_status"] = resp.Status
+					}
+					log := env.Origin.Log()
+					name, val, _ := strings.Cut(cond, ": ")
+					for j := before; j < len(log); j++ {
+						if log[j].Header.Get(name) == val {
+							det["upstream_request"] = map[string]any{"no": j - before + 1, name: val}
+							fail("client-validators-on-range", det, "a conditional header value sent by the client reached the origin (the stored validators are those of version 1)")
+							break
+						}
+					}
+					// afterwards the proxy must not serve version 1 as a fresh hit
+					resp2, err2 := do(nil)
+					if err2 == nil && resp2.Status == 200 && bodyID(resp2.Body) == "v1" && strings.Contains(resp2.Header.Get("X-Cache"), "HIT") {
+						det["later_plain_get"] = map[string]any{"body": "v1", "x_cache": resp2.Header.Get("X-Cache")}
+						fail("client-validators-on-range", det, "after the origin was contacted about version 2, version 1 is served as a fresh hit")
+					}
+					env.Close()
+					os.RemoveAll(dir)
+				}
+			}
+		}
+	}
 }
 
 // C09x: the cache directory refuses the removal of eviction victims (the victim's file is turned into a
@@ -340,6 +499,12 @@ func main() {
 	case "C08x":
 		runC08x(r)
 		rule = "(a) GET with Range, origin answers 416 then (without Range) a storable or non-storable 200/404/503, retry_on_range_416 on and off: status, X-Answer-Id header and body id of the client response must belong to one origin answer; (b) entry stored, aged stale, revalidation answered 503/404/500/429, then the direct fallback: no conditional header reaches the origin that the client did not send, and the unconditional GET is not answered 304; x backends x plain/CONNECT"
+	case "C04x":
+		runC04x(r)
+		rule = "retry_on_range_416=true: GET with Range answered 416 (with or without its own Cache-Control), retried without Range and answered 200 marked private / no-store / max-age=0 / no-cache / past Expires / mixed case; then a plain GET of the same URL must contact the origin again; x backends"
+	case "C06x":
+		runC06x(r)
+		rule = "the proxy stores version 1, the origin moves to version 2 (honouring conditionals), a client sends a Range request carrying If-None-Match / If-Modified-Since of version 2 (entry fresh or stale): no client conditional value reaches the origin, and version 1 is not served as a fresh hit afterwards; x backends x plain/CONNECT"
 	case "C09x":
 		runC09x(r)
 		rule = "file backend at its 1 kB limit whose stored files cannot be removed (turned into non-empty directories), shards 1/2/32: 12 further requests to a healthy origin must each be answered with the origin's 200 within 4 s"
